@@ -116,6 +116,18 @@ pub fn alphabet(pool: &[Op], thorough: bool) -> Vec<Step> {
             }
         }
     }
+    // bulk requests carrying a single document (what a repair of one key or a put_many of
+    // one document sends; the actor may treat this size specially), and an empty one
+    for (i, op) in pool.iter().enumerate() {
+        for src in 0..2 {
+            for fault in single_faults {
+                let req = if op.del { Req::MultiDel { ops: vec![i], src } } else { Req::MultiSet { ops: vec![i], src } };
+                out.push(Step { req, fault });
+            }
+        }
+    }
+    out.push(Step { req: Req::MultiSet { ops: vec![], src: 1 }, fault: Fault::None });
+    out.push(Step { req: Req::MultiDel { ops: vec![], src: 1 }, fault: Fault::None });
     // bulk requests: ordered pairs that share a key or an origin (the interesting ones),
     // and in thorough every ordered pair plus a few triples
     for del in [false, true] {
